@@ -78,6 +78,11 @@ def base_cases(r, tier):
     out.append({"name": "multi-block-options", "spec": copy.deepcopy(spec), "pre": [], "bs": "4096", "expect_fail": False, "opts": ["--no-perms", "--fsync", "--reflink", "never"]})
     # the largest block size there is (what --no-progress selects; the library's default): one "block" per file, for both drivers
     out.append({"name": "multi-block-no-progress", "spec": copy.deepcopy(spec), "pre": [], "bs": "4096", "expect_fail": False, "opts": ["--no-progress"], "per": 24 if tier == "quick" else 120})
+    # a sparse-looking file with data freshly written (not yet flushed) into a preallocated range: the extent map calls that range
+    # 'unwritten' until writeback, a data/hole search does not -- the two drivers look at different things and must agree
+    spec_pa = [{"p": "src", "k": "d"}, {"p": "src/pa", "k": "f", "size": 8 << 20, "seed": 777, "segs": [[1 << 20, 262144], [(1 << 20) + 600000, 4096]], "falloc": [[1 << 20, 1 << 20]], "sync": False, "mode": 0o644},
+               {"p": "src/pb", "k": "f", "size": (3 << 20) + 5, "seed": 779, "segs": [[0, 100000]], "falloc": [[0, 1 << 20]], "sync": False, "mode": 0o644}, F("src/other", 5000, 778, mode=0o644)]
+    out.append({"name": "preallocated-range-written-unsynced", "spec": spec_pa, "pre": [], "bs": "65536", "expect_fail": False, "per": 12 if tier == "quick" else 60, "plain": 4})
     # T8: numbered backups of files whose names are prefixes of one another (rotated logs): every overwrite renames a neighbour
     names = ["log", "log.1", "log.1.gz", "log.2", "README", "README.md", "f1", "f10", "f100", "f1.~1~x"]
     spec8 = [{"p": "src", "k": "d"}] + [F("src/" + n, r.choice([0, 100, 5000, 70000]), 50 + i, mode=0o644) for i, n in enumerate(names)]
